@@ -20,10 +20,12 @@ pub trait Raw: Copy + PartialEq + PartialOrd + core::fmt::Debug {
     fn sext(self) -> u128;
     /// truncating conversion from the low W bits of a u128
     fn trunc(v: u128) -> Self;
+    /// exact product of two magnitudes < 2^W, computed in a 2W-bit word (W <= 64)
+    fn mulw(a: u128, b: u128) -> u128;
 }
 
 macro_rules! raw_signed {
-    ($($t:ty),*) => {$(
+    ($($t:ty, $d:ty);*) => {$(
         impl Raw for $t {
             const W: u32 = <$t>::BITS;
             const SIGNED: bool = true;
@@ -35,11 +37,13 @@ macro_rules! raw_signed {
             fn sext(self) -> u128 { self as i128 as u128 }
             #[inline(always)]
             fn trunc(v: u128) -> Self { v as $t }
+            #[inline(always)]
+            fn mulw(a: u128, b: u128) -> u128 { ((a as $d) * (b as $d)) as u128 }
         }
     )*};
 }
 macro_rules! raw_unsigned {
-    ($($t:ty),*) => {$(
+    ($($t:ty, $d:ty);*) => {$(
         impl Raw for $t {
             const W: u32 = <$t>::BITS;
             const SIGNED: bool = false;
@@ -51,11 +55,13 @@ macro_rules! raw_unsigned {
             fn sext(self) -> u128 { self as u128 }
             #[inline(always)]
             fn trunc(v: u128) -> Self { v as $t }
+            #[inline(always)]
+            fn mulw(a: u128, b: u128) -> u128 { ((a as $d) * (b as $d)) as u128 }
         }
     )*};
 }
-raw_signed!(i8, i16, i32, i64, i128, isize);
-raw_unsigned!(u8, u16, u32, u64, u128, usize);
+raw_signed!(i8, u16; i16, u32; i32, u64; i64, u128; i128, u128; isize, u128);
+raw_unsigned!(u8, u16; u16, u32; u32, u64; u64, u128; u128, u128; usize, u128);
 
 /// Unsigned 256-bit value as (hi, lo).
 #[derive(Clone, Copy, PartialEq, Eq, Debug)]
